@@ -11,4 +11,4 @@ per = collections.Counter(); runs = 0; vr = 0
 for res in core.pool_map(mod.worker, chunks, core.jobs(), 900):
     per.update(res.get("per_oracle", {})); runs += res["cnt"].get("runs", 0); vr += res["cnt"].get("violating_runs", 0)
 print(f"{prop} seed={seed} runs={runs} violating_runs={vr}")
-for k, v in per.most_common(12): print(f"   {v:6d} {k}")
+for k, v in per.most_common(200): print(f"   {v:6d} {k}")
